@@ -109,6 +109,10 @@ def run(ctx):
                   (("new+state", "new"), ("new", "prune")), (("plan",), ("new", "set")), (("prune",), ("close", "reopen", "new+state"))][i % 6]
         explore2.explore(ctx, "C16", r.fork(), kindsA=ka, kindsB=kb, max_points=(7 if ctx.quick else 40), state_cmds=10,
                          weights={"new_task": 35, "new_epic": 6, "set": 35, "claim_oldest": 8, "sequence": 10})
+    # the same when a write to the log is refused or cut short (disk full, file size limit): exit 0 and a success value only if the work is in the log
+    from . import c10
+    for i in range(3 if ctx.quick else 40):
+        c10.io_faults(ctx, r.fork(), prop="C16", torn=(i % 3 == 2))
     ctx.cov["rule"] = ("two-process schedules (A parked after each store call, B complete / holding the lock): replies = replies of the equivalent serial run; "
                        "every mutating command with --json in all input modes on generated states, plus the read commands; strict single-value parse of raw stdout; "
                        "failure ⇒ stderr non-empty and stdout empty or one error object; reply fields compared with the replay of the log right after")
